@@ -249,6 +249,19 @@ def run_shard(spec, acc):
                 if rng.random() < 0.3:
                     extra.append(malformed(kind, rng))
             packets = extra
+            if kind != "actisense" and any(7 <= (x.length or 0) <= 60 for x in pool.fasts):
+                # a slow sender: the frames of one fast-packet message are hundreds of packets apart (nothing in the
+                # statement bounds the time or the traffic between two frames of a message)
+                d_ = min((x for x in pool.fasts if 7 <= (x.length or 0) <= 60), key=lambda x: x.length)
+                pb_ = pool.payload(d_)
+                if pb_ is not None:
+                    fr_ = wire.fast_frames(pb_, 5, 0xFF)
+                    if 2 <= len(fr_) <= 9:
+                        for j_, f_ in enumerate(fr_):
+                            # the first frame early, the second in the middle, the rest near the end
+                            at = int(len(packets) * (0.04 if j_ == 0 else 0.5 if j_ == 1 else 0.96)) + j_
+                            packets.insert(at, packetise(kind, hist.Ev(3, d_.pgn, 77, 255, f_, "fast", 99999, last=(j_ == len(fr_) - 1), definition=d_.id), rng))
+                        acc.count("long_sessions_with_a_slow_fast_packet_sender")
             stream = b"".join(packets)
             want, undel = expected_messages(kind, packets, {})
             for label, cuts in (("reads_of_100", list(range(100, len(stream), 100))), ("reads_of_7", list(range(7, len(stream), 7))),
